@@ -20,6 +20,7 @@ RULE = (
     "array/object, unions: no branch matches); decimal precision/scale negative, non-integer, scale>precision, precision "
     "beyond the fixed size for sizes 1..16 (boundary precisions max and max+1). SchemaParseException or UnknownType "
     "required. distinct_nontrivial = distinct schema texts parsed."
+    ' Enum defaults outside the symbol list include the falsy JSON values; every family schema with an outermost named type is also spelled with a dotted name AND a contradicting namespace attribute.'
 )
 ASSUMPTIONS = [
     "reference name resolution mc/ref/names.py; ambiguous spellings (scale 0.0, precision 0, True as a number for float) are kept out of the mutation alphabet",
